@@ -8,7 +8,10 @@ examples; (3) fetches every schema and regime through the bulk actions; (4) TLC
 compares published = generated = library = served as JSON values for every file
 (both file sets must be equal) and evaluates the coherence predicates over
 every regime and addon (currency, time zone, tags, extensions, categories,
-correction types all defined; definition validates)."""
+correction types all defined; definition validates); (5) behaviour: every example
+invoice and its variants (each offered tag added, each tag removed, every
+invoice type) is calculated to its fix-point and ScenarioTrace.tla compares the
+notes and tax extensions it carries with what the published scenarios prescribe."""
 import json, os, shutil, subprocess, tempfile
 from . import core
 
@@ -50,6 +53,24 @@ def run(ctx):
     for name, what in data["findings"]:
         ctx.disagreements.append({"cls": "pub-%s:%s" % (what, name), "what": "%s: %s" % (name, what), "family": "pub",
                                   "replay": {"file": name, "finding": what}})
+    # behaviour: the scenarios the published files describe are the ones the library applies (Scenario.tla)
+    defs = ctx.path("defs")
+    ctx.run([vd, "refs-export", "-repo", core.REPO, "-out", defs])
+    strace = ctx.path("scenarios.ndjson")
+    ctx.run([vd, "scen-run", "-repo", core.REPO, "-out", strace], timeout=1500)
+    scen = {"events": 0, "matched": 0}
+    for sp, chunk, r2, _ in ctx.validate_trace("ScenarioTrace", strace, shards=8, env={"MANIFEST": os.path.join(defs, "manifest.json")}):
+        scen["events"] += r2["events"]
+        scen["matched"] += r2["matched"]
+        for idx, verdict in r2["bad"]:
+            ev = json.loads(chunk[idx - 1])
+            ctx.disagreements.append({"cls": "scenario-%s:%s:%s" % (verdict, ev["cc"], "+".join(ev["addons"])),
+                                      "what": "%s (%s): regime %s addons %s type %s tags %s -> notes %s tax.ext %s; published scenarios say: %s" % (
+                                          ev["src"], ev["variant"], ev["cc"], ev["addons"], ev["type"], ev["tags"],
+                                          [(n["key"], n["code"], n["src"]) for n in ev["notes"]], ev["taxext"], verdict),
+                                      "family": "scenario", "replay": {"src": ev["src"], "variant": ev["variant"], "verdict": verdict}})
+    if scen["events"] < 100 or scen["matched"] < 100:
+        raise core.Infra("the scenario sweep is vacuous: %s" % scen)
     kinds = {}
     for f in man["files"]:
         k = f["name"].split("/")[0]
@@ -60,11 +81,12 @@ def run(ctx):
            "evaluations": len(man["files"]), "distinct_nontrivial": sum(1 for f in man["files"] if f["mem"] or f["served"]),
            "rule": "one comparison per definition file (published vs regenerated vs library-after-workload vs served); non-trivial = files that are "
                    "also compared with the running library or the served copy (regimes, addons, schemas)",
-           "files_by_kind": kinds, "regenerated_files": kept, "workload_documents": man["workload"], "exhaustive": True}
+           "files_by_kind": kinds, "scenario_events": scen["events"], "scenario_matches_evaluated": scen["matched"], "regenerated_files": kept, "workload_documents": man["workload"], "exhaustive": True}
     return core.finish(ctx, "model_checking", cov, [
         "TLC and Published.tla are trusted; files are re-encoded mechanically (every value tagged) before TLC reads them",
         "the repository's own generators are run in a scratch copy of the working tree (removed afterwards)",
-        "a tag used by an addon scenario counts as defined when the addon or any regime offers it"])
+        "a tag used by an addon scenario counts as defined when the addon or any regime offers it",
+        "scenario conformance (Scenario.tla) is judged at the fix-point of calculation; the one scenario with a code-only filter (pt-saft invoice-receipt) is not judged"])
 
 
 def replay(ctx, path):
